@@ -360,7 +360,7 @@ LANES = [
         name="lines",
         run_case=run_line,
         strategy=case_st,
-        budget={"quick": 48000, "thorough": 1200000},
+        budget={"quick": 48000, "thorough": 600000},
         shards={"quick": 16, "thorough": 64},
         nontrivial=_nontrivial,
         labels=_labels,
